@@ -9,6 +9,7 @@ package rules
 import (
 	"go/ast"
 	"go/constant"
+	"go/token"
 	"go/types"
 	"sort"
 	"strings"
@@ -85,6 +86,20 @@ func (e *effectCtx) stmt(info *types.Info, s ast.Stmt) []string {
 			})
 		}
 		for i, l := range s.Lhs {
+			if ix, isIx := stripParens(l).(*ast.IndexExpr); isIx && fieldOf(info, ix.X) != nil {
+				rhs := "_"
+				if len(s.Rhs) == len(s.Lhs) {
+					rhs = e.argStr(info, s.Rhs[i])
+				}
+				out = append(out, "set("+e.argStr(info, l)+s.Tok.String()+rhs+")")
+				continue
+			}
+			if id, isId := stripParens(l).(*ast.Ident); isId && s.Tok != token.DEFINE && id.Name != "_" && len(s.Rhs) == len(s.Lhs) {
+				if _, isVar := info.ObjectOf(id).(*types.Var); isVar {
+					out = append(out, "let($"+id.Name+s.Tok.String()+e.argStr(info, s.Rhs[i])+")")
+					continue
+				}
+			}
 			if fld := fieldOf(info, l); fld != nil {
 				rhs := "_"
 				if len(s.Rhs) == len(s.Lhs) {
